@@ -16,6 +16,11 @@ open Model Spec Py
 abbrev K : NmeaConsts := { maxFragCnt := Generated.MAX_FRAG_CNT, maxPayloadLen := Generated.MAX_PAYLOAD_LEN }
 abbrev env := Generated.env
 
+/-- the limits the parser puts on one sentence leave room for every way of carrying a message: the
+longest payload (1064 bits = 178 armored characters) fits into a single sentence, and nine fragments
+are accepted -/
+theorem limits_ok : 178 ≤ Generated.MAX_PAYLOAD_LEN ∧ 9 ≤ Generated.MAX_FRAG_CNT := by decide
+
 /-! ### helpers -/
 
 /-- being a carrier does not depend on the order in which the fragments are listed -/
@@ -97,6 +102,7 @@ example :
      | .ok a, .ok b => a == b
      | _, _ => false) = true := by decide +kernel
 
+#print axioms limits_ok
 #print axioms C04_is_payload_decode
 #print axioms C04_carrier_independent
 #print axioms C04_swap
